@@ -39,9 +39,10 @@ struct Graph {
 
 /// definitions of module m, in order: (name, arity)
 fn defs_of(m: usize) -> Vec<(&'static str, usize)> {
-    let mut d: Vec<(&'static str, usize)> = vec![("f", 0), ("first", 0), ("h", 1)];
+    let mut d: Vec<(&'static str, usize)> = vec![("f", 0), ("first", 0), ("h", 1)]; // `first` shadows a builtin that is defined in jq
     if m >= 2 {
         d.push(("w", 0)); // only b and c define w
+        d.push(("length", 0)); // ... and shadow a builtin that is implemented natively
     }
     d.push((["u_main", "u_a", "u_b", "u_c"][m], 0));
     d.push(("g", 0)); // g is last: it calls everything that is visible
@@ -90,7 +91,7 @@ fn resolve_plain(g: &Graph, m: usize, upto: usize, name: &str, arity: usize) -> 
             }
         }
     }
-    (name == "first" && arity == 0).then_some(Target::Builtin)
+    ((name == "first" || name == "length") && arity == 0).then_some(Target::Builtin)
 }
 
 fn resolve_qualified(g: &Graph, m: usize, alias: &str, name: &str, arity: usize) -> Option<Target> {
@@ -102,7 +103,7 @@ fn resolve_qualified(g: &Graph, m: usize, alias: &str, name: &str, arity: usize)
 /// candidate call sites: (text in the module, resolution)
 fn universe() -> Vec<(String, Option<&'static str>, &'static str, usize)> {
     let mut u = vec![];
-    for (n, a) in [("f", 0), ("first", 0), ("w", 0), ("u_main", 0), ("u_a", 0), ("u_b", 0), ("u_c", 0), ("g", 0), ("h", 1)] {
+    for (n, a) in [("f", 0), ("first", 0), ("length", 0), ("w", 0), ("u_main", 0), ("u_a", 0), ("u_b", 0), ("u_c", 0), ("g", 0), ("h", 1)] {
         u.push((if a == 0 { n.to_string() } else { format!("{n}(7)") }, None, n, a));
         for al in &ALIAS[1..] {
             u.push((if a == 0 { format!("{al}::{n}") } else { format!("{al}::{n}(7)") }, Some(*al), n, a));
